@@ -141,7 +141,7 @@ func runC07(c *Ctx) error {
 		src, mode string
 	}
 	var jobs []job
-	wantVals := []string{"6", "405", "12", "3", "3", "4", "103", "50", "5.5", "248"} // the value of each corpus program's last variable
+	wantVals := []string{"6", "405", "12", "3", "3", "4", "103", "50", "5.5", "248", "112"} // the value of each corpus program's last variable
 	corpus := []string{
 		"func ok(a int) bool { return a > 0 }; func f(a int) int { x := 5; switch { case ok(a): x = 6 }; return x }; y := f(1)",
 		"var n = 0; func inc() int { n++; return n }; func f() int { i := 0; for inc(); i < 4; inc() { i++ }; return i*100 + n }; x := f()",
@@ -153,6 +153,7 @@ func runC07(c *Ctx) error {
 		"func clamp(x int) int { if x > 10 { }; return x }; func f() int { t := 0; for i := 8; i < 13; i++ { if i%2 == 0 { } else { }; t += clamp(i) }; return t }; x := f()",
 		"const K = 3; func f(_ int, _ int, c ...float64) float64 { const k = K + 1; var b byte = 255; b += k; return c[0]/2 + float64(b) }; x := f(1, 2, 5)",
 		"type T struct { A int }; func (t *T) M(xs ...byte) byte { return xs[0] + 200 }; func f() int { t := &T{}; var a, b int = 1, 2; var p, q = t.M(100), t.M(1, 2); return a + b + int(p) + int(q) }; x := f()",
+		"func s(xs ...int) int { n := 0; for _, x := range xs { n += x }; return n }; func f(k int, xs ...int) int { a := 10; b := a + k; _ = b; return s(xs...) }; type T struct { A int }; func (t *T) M(xs ...int) int { return s(xs...) + t.A }; func g() int { t := &T{A: 100}; ys := []int{1, 2, 3}; return f(1, ys...) + t.M(ys...) + f(2) }; x := g()",
 	}
 	// callees with 0..6 leading locals that range over a nil slice / nil map after a non-nil one, called from a
 	// frame with eight live locals: the loop's hidden slots must stay inside the callee's frame
